@@ -96,6 +96,10 @@ fn map_out(r: sourcemap::Result<DecodedMap>) -> Out {
 }
 
 pub fn reader_side(entry: Entry, rdr: &mut SimReader) -> Out {
+    reader_side_generic(entry, rdr)
+}
+
+pub fn reader_side_generic<R: std::io::Read>(entry: Entry, rdr: &mut R) -> Out {
     guard(|| match entry {
         Entry::Decode => map_out(sourcemap::decode(&mut *rdr)),
         Entry::DecodedFromReader => map_out(DecodedMap::from_reader(&mut *rdr)),
@@ -159,8 +163,34 @@ pub fn slice_side(entry: Entry, bytes: &[u8]) -> Out {
     })
 }
 
-fn data_url_side(bytes: &[u8]) -> Out {
-    let url = format!("data:application/json;base64,{}", zoo::base64(bytes));
+/// Data-URL spellings. Variant 0 is the canonical one the property speaks of (exact preamble,
+/// padded standard base64): it must decode like its payload. The others are not "a base64 data
+/// URL" in that strict sense; for them the oracle only demands "an error, or the payload's map".
+fn data_url(bytes: &[u8], variant: u8) -> String {
+    let b64 = zoo::base64(bytes);
+    let pre = "data:application/json;base64,";
+    match variant {
+        0 => format!("{pre}{b64}"),
+        1 => format!("{pre}{}", b64.trim_end_matches('=')),
+        2 => format!("{pre}{b64}\n"),
+        3 => format!("{pre}{}", b64.replace('+', "-").replace('/', "_")),
+        4 => pre[..(bytes.len() % pre.len())].to_string(),
+        5 => format!("data:application/json;base64{}{b64}", ["é", "€", "👌"][bytes.len() % 3]),
+        6 => format!("data:application/json;charset=utf-8;base64,{b64}"),
+        7 => format!("DATA:application/json;base64,{b64}"),
+        8 => {
+            let mut t = b64.clone();
+            if t.len() > 4 {
+                t.insert(t.len() / 2, ' ');
+            }
+            format!("{pre}{t}")
+        }
+        _ => format!("{pre}{b64}="),
+    }
+}
+
+fn data_url_side(bytes: &[u8], variant: u8) -> Out {
+    let url = data_url(bytes, variant);
     guard(|| map_out(sourcemap::decode_data_url(&url)))
 }
 
@@ -188,6 +218,12 @@ pub struct Case {
     pub at_rest_damage: bool,
     pub doc_kind: &'static str,
     pub stats: TransportStats,
+    /// scribble over the unused tail of the caller's read buffer
+    pub poison: bool,
+    /// 0 = hand the SimReader over directly; k > 0 = wrap it in BufReader::with_capacity(k)
+    pub wrap_capacity: usize,
+    /// data-URL spelling (DataUrl entry): 0 canonical; others are non-canonical spellings
+    pub url_variant: u8,
 }
 
 const JUNK_STARTS: [u8; 4] = [b')', b']', b'}', b'\''];
@@ -207,6 +243,12 @@ fn gen_header(rng: &mut Rng) -> Option<Header> {
     let mut clean = true;
     if rng.chance(1, 4) {
         h.extend_from_slice(b")]}'");
+    } else if rng.chance(1, 10) {
+        // a first byte that is *near* the four junk bytes (neighbours in ASCII, other
+        // punctuation, real-world prefixes, control and high bytes): both paths must agree that
+        // this is no junk header (the model does not apply)
+        h.extend_from_slice(*rng.pick(&[&b"("[..], b"&", b"\\", b"|", b"~", b"^", b"*", b"<", b"`", b"\x00", b"\x7f", b"\x80", b"\xa9", b"\xff", b"while(1);", b"for(;;);", b"&&&START&&&", b"/", b"("]));
+        clean = false;
     } else {
         h.push(*rng.pick(&JUNK_STARTS[..]));
     }
@@ -354,6 +396,24 @@ pub fn gen_case(rng: &mut Rng, fx: &Fixtures) -> Case {
         }
     }
     stored.extend_from_slice(&body);
+    // total length aimed at a buffer multiple (whitespace padding is JSON whitespace), or far
+    // trailing garbage behind a long run of whitespace (both paths must reject it)
+    match rng.below(60) {
+        0 | 1 => {
+            let unit = *rng.pick(&[4096usize, 8192, 16384]);
+            let k = stored.len() / unit + 1;
+            let target = (k * unit) as i64 + *rng.pick(&[-1i64, 0, 1]);
+            while (stored.len() as i64) < target {
+                stored.push(b' ');
+            }
+        }
+        2 => {
+            stored.extend(std::iter::repeat(b' ').take(*rng.pick(&[100usize, 8200, 9000, 17000])));
+            stored.extend_from_slice(*rng.pick(&[&b"x"[..], b"{}", b"\x00", b"]"]));
+            abs = Abs::NotApplicable;
+        }
+        _ => {}
+    }
 
     let n = stored.len();
     let chunking = match rng.weighted(&[8, 10, 30, 30, 10, 12]) {
@@ -389,9 +449,18 @@ pub fn gen_case(rng: &mut Rng, fx: &Fixtures) -> Case {
     }
     let eintr = *rng.pick(&[0u64, 0, 10, 40]);
     let hard = if rng.chance(10, 100) { Some((rng.below_usize(chunks.len() + 1), *rng.pick(&ErrKind::ALL[..]))) } else { None };
-    let events = interleave(chunks, eintr, hard, rng, &mut stats);
+    let mut events = interleave(chunks, eintr, hard, rng, &mut stats);
+    if hard.is_some() && rng.chance(1, 6) {
+        // a second hard error later in the stream (a consumer that swallowed the first one)
+        let at = rng.below_usize(events.len() + 1);
+        events.insert(at, Event::Error(*rng.pick(&ErrKind::ALL[..])));
+        stats.hard_error += 1;
+    }
     let entry = Entry::ALL[rng.weighted(&[34, 6, 12, 10, 10, 22, 6])];
     Case {
+        poison: rng.chance(1, 5),
+        wrap_capacity: if rng.chance(1, 20) { *rng.pick(&[1usize, 3, 64, 8191, 8193, 20000]) } else { 0 },
+        url_variant: if rng.chance(1, 2) { 0 } else { 1 + rng.below(9) as u8 },
         label: doc.label,
         entry,
         events,
@@ -424,10 +493,18 @@ pub fn execute(c: &Case) -> Exec {
         }
     };
     let (reader, log) = if c.entry == Entry::DataUrl {
-        (data_url_side(&d), ReadLog::default())
+        (data_url_side(&d, c.url_variant), ReadLog::default())
     } else {
         let mut rdr = SimReader::new(&c.events);
-        let out = reader_side(c.entry, &mut rdr);
+        rdr.poison = c.poison;
+        let out = if c.wrap_capacity > 0 {
+            // the caller's own buffering in front of the library: the library then sees read
+            // requests of `wrap_capacity` bytes instead of its usual 8192
+            let mut wrapped = std::io::BufReader::with_capacity(c.wrap_capacity, &mut rdr);
+            reader_side_generic(c.entry, &mut wrapped)
+        } else {
+            reader_side(c.entry, &mut rdr)
+        };
         (out, rdr.log)
     };
     let slice = slice_side(c.entry, &d);
@@ -443,6 +520,14 @@ pub fn execute(c: &Case) -> Exec {
             set(
                 format!("rel-after-io-error:{e}:{}-vs-{}", reader.class(), slice.class()),
                 format!("after an injected non-retryable error the reader path returned {}, the slice path on the delivered bytes {}", reader.short(), slice.short()),
+            );
+        }
+    } else if c.entry == Entry::DataUrl && c.url_variant != 0 {
+        // a non-canonical spelling: an error, or the payload's map; never a different map
+        if reader != Out::Err && reader != slice {
+            set(
+                format!("rel:{e}:variant{}:{}-vs-{}", c.url_variant, reader.class(), slice.class()),
+                format!("a non-canonical data URL (variant {}) decoded to {}, its payload decodes to {}", c.url_variant, reader.short(), slice.short()),
             );
         }
     } else if reader != slice {
@@ -461,8 +546,8 @@ pub fn execute(c: &Case) -> Exec {
             ),
         );
     }
-    // absolute oracle (content-fault-free runs with a clean header)
-    if !log.hard_error_delivered {
+    // absolute oracle (content-fault-free runs with a clean header; canonical data URLs only)
+    if !log.hard_error_delivered && !(c.entry == Entry::DataUrl && c.url_variant != 0) {
         match &c.abs {
             Abs::NotApplicable => {}
             Abs::LikeBody(body) => {
@@ -494,6 +579,7 @@ pub fn execute(c: &Case) -> Exec {
     let mut h = H64::new();
     h.u64(events_hash(&c.events));
     h.u64(c.entry as u64);
+    h.u64(c.url_variant as u64 + 16 * c.wrap_capacity as u64 + if c.poison { 1 << 40 } else { 0 });
     h.str(&reader.short());
     h.str(&slice.short());
     h.u64(log.read_calls);
@@ -509,6 +595,7 @@ impl Case {
             "doc": self.label, "entry": self.entry.name(), "events": events_to_json(&self.events),
             "abs": match &self.abs { Abs::NotApplicable => json!("n/a"), Abs::MustFail => json!("must-fail"), Abs::LikeBody(b) => json!({"like_body": hex(b)}) },
             "nl": self.nl, "header_len": self.header_len, "chunking": self.chunking,
+            "poison": self.poison, "wrap_capacity": self.wrap_capacity, "url_variant": self.url_variant,
         })
     }
     fn from_json(v: &Value) -> Option<Case> {
@@ -536,6 +623,9 @@ impl Case {
             at_rest_damage: false,
             doc_kind: "replay",
             stats: TransportStats::default(),
+            poison: v["poison"].as_bool().unwrap_or(false),
+            wrap_capacity: v["wrap_capacity"].as_u64().unwrap_or(0) as usize,
+            url_variant: v["url_variant"].as_u64().unwrap_or(0) as u8,
         })
     }
     fn summary(&self) -> Value {
@@ -563,6 +653,10 @@ fn sweep_cases(fx: &Fixtures) -> Vec<Case> {
         ("non-map:[1, 2, 3]", b"[1, 2, 3]".to_vec()),
         ("invalid:{", b"{".to_vec()),
         ("ws-body", format!("\n {}", zoo::INLINE_DOCS[0].1).into_bytes()),
+        // a second junk line in front of the document (only the first line is a header), and a
+        // body that begins with the LF that turns a bare-CR header into a CRLF one
+        ("junk-line-body", format!(")]}}'\n{}", zoo::INLINE_DOCS[0].1).into_bytes()),
+        ("lf-first-body", format!("\n{}", zoo::INLINE_DOCS[0].1).into_bytes()),
     ];
     let _ = fx;
     let headers: Vec<&[u8]> = vec![b")", b"]", b"}", b"'", b")]}'", b")]}garbage", b"}\"{[", b"'\xc3\xa9\xff", b")]}' // x"];
@@ -580,6 +674,9 @@ fn sweep_cases(fx: &Fixtures) -> Vec<Case> {
         at_rest_damage: false,
         doc_kind: "sweep",
         stats: TransportStats::default(),
+        poison: false,
+        wrap_capacity: 0,
+        url_variant: 0,
     };
     for (label, body) in &small {
         for h in &headers {
@@ -595,6 +692,7 @@ fn sweep_cases(fx: &Fixtures) -> Vec<Case> {
                         stored.extend_from_slice(body);
                     }
                     let abs = match nl {
+                        "\n" | "\r\n" if body.first().map(|b| is_junk_start(*b)).unwrap_or(false) => Abs::NotApplicable,
                         "\n" | "\r\n" => Abs::LikeBody(body.clone()),
                         "\r" => {
                             if !header_only && body.first() == Some(&b'\n') {
@@ -639,7 +737,8 @@ fn sweep_cases(fx: &Fixtures) -> Vec<Case> {
     }
     // headers whose end straddles BufReader's 8192 bytes, delivered in full-size reads
     let body = zoo::INLINE_DOCS[0].1.as_bytes().to_vec();
-    for total in 8186..=8198usize {
+    let boundaries: Vec<usize> = [4096usize, 8192, 16384, 32768, 65536].iter().flat_map(|b| (b - 6)..=(b + 6)).collect();
+    for total in boundaries {
         for (nl, nlname) in nls {
             if nl.is_empty() {
                 continue;
@@ -652,9 +751,10 @@ fn sweep_cases(fx: &Fixtures) -> Vec<Case> {
             let hl = stored.len();
             stored.extend_from_slice(&body);
             let abs = if nl == "\r" { Abs::MustFail } else { Abs::LikeBody(body.clone()) };
-            for entry in [Entry::Decode, Entry::Detect] {
+            let b = [4096usize, 8192, 16384, 32768, 65536].into_iter().min_by_key(|b| (*b as i64 - total as i64).abs()).unwrap();
+            for entry in [Entry::Decode, Entry::Detect, Entry::Regular] {
                 out.push(mk("inline:basic", entry, vec![stored.clone()], abs.clone(), nlname, hl, "sweep-8192-all-at-once"));
-                out.push(mk("inline:basic", entry, vec![stored[..8192.min(stored.len())].to_vec(), stored[8192.min(stored.len())..].to_vec()], abs.clone(), nlname, hl, "sweep-8192-split"));
+                out.push(mk("inline:basic", entry, vec![stored[..b.min(stored.len())].to_vec(), stored[b.min(stored.len())..].to_vec()], abs.clone(), nlname, hl, "sweep-8192-split"));
             }
         }
     }
